@@ -56,6 +56,9 @@ func (e *Engine) verifyFunc(fn *ssa.Function, fc *FuncContract, safety bool) (re
 	st := &State{pc: "true", cells: map[*ssa.Alloc]Val{}, heaps: map[string]string{}, ghosts: map[string]TVal{}}
 	st.next = vc.fresh("next0", "Int")
 	vc.assume("true", fmt.Sprintf("(> %s 0)", st.next))
+	for _, g := range e.cs.Ghosts {
+		st.ghosts[g] = TVal{vc.fresh("gh_"+g, "Bool"), tBool}
+	}
 	fr := ex.newFrame(fn, 0)
 	fr.isTop = true
 	for _, p := range fn.Params {
@@ -221,4 +224,15 @@ func (ex *Exec) calleeContract(fn *ssa.Function) *FuncContract {
 		}
 	}
 	return ex.eng.contractFor(fn, ex.aspect)
+}
+
+// externFor selects the dependency contract for the unit being verified: the one of the unit's aspect if there is
+// one, else the main one.
+func (ex *Exec) externFor(name string) *FuncContract {
+	if ex.aspect != "" && ex.aspect != "main" {
+		if fc := ex.eng.externs[name+"\x00"+ex.aspect]; fc != nil {
+			return fc
+		}
+	}
+	return ex.eng.externs[name]
 }
